@@ -94,8 +94,9 @@ func c11ChildMain() {
 				buf := make([]byte, 1<<20)
 				buf = buf[:runtime.Stack(buf, true)]
 				phase, top := c11Phase(string(buf))
-				write(c11Outcome{ID: id, Class: "mem-exceeded", RSSMB: rss, BaseMB: base, Site: phase, Func: top, Stack: c11Bound(string(buf), 4000),
-					Detail: fmt.Sprintf("resident set %d MB after a forced GC, warm baseline %d MB, cap %d MB above baseline (4x the 500 MB allocation limit); handler phase: %s, at %s", rss, base, c11MemCapMB, phase, top)})
+				holder, hmb := c11TopAllocator()
+				write(c11Outcome{ID: id, Class: "mem-exceeded", RSSMB: rss, BaseMB: base, Site: phase + ":" + holder, Func: top, Stack: c11Bound(string(buf), 4000),
+					Detail: fmt.Sprintf("resident set %d MB after a forced GC, warm baseline %d MB, cap %d MB above baseline (4x the 500 MB allocation limit); handler phase: %s, at %s; largest holder of live heap: %s (%d MB)", rss, base, c11MemCapMB, phase, top, holder, hmb)})
 				os.Exit(4)
 			}
 		}
@@ -388,4 +389,50 @@ func c11Phase(dump string) (phase, top string) {
 		break
 	}
 	return
+}
+
+// c11TopAllocator returns the function (first non-runtime frame of the
+// allocation stacks of the heap profile, as of the last GC) that holds the
+// most live heap bytes, and that amount in MB. When the heap does not explain
+// the memory (a huge goroutine stack, say) it answers "stack-or-other".
+func c11TopAllocator() (string, int64) {
+	n, _ := runtime.MemProfile(nil, true)
+	recs := make([]runtime.MemProfileRecord, n+200)
+	n, ok := runtime.MemProfile(recs, true)
+	if !ok {
+		return "?", 0
+	}
+	by := map[string]int64{}
+	for _, r := range recs[:n] {
+		if r.InUseBytes() <= 0 {
+			continue
+		}
+		name := "?"
+		frames := runtime.CallersFrames(r.Stack())
+		for {
+			f, more := frames.Next()
+			if f.Function != "" && !strings.HasPrefix(f.Function, "runtime.") && !strings.HasPrefix(f.Function, "runtime/") &&
+				!strings.HasPrefix(f.Function, "strings.(*Builder)") && !strings.HasPrefix(f.Function, "bytes.") && !strings.HasPrefix(f.Function, "slices.") {
+				name = f.Function
+				if k := strings.LastIndex(name, "/"); k >= 0 && strings.HasPrefix(name, "github.com/") {
+					name = name[k+1:]
+				}
+				break
+			}
+			if !more {
+				break
+			}
+		}
+		by[name] += r.InUseBytes()
+	}
+	best, bytes := "stack-or-other", int64(0)
+	for k, v := range by {
+		if v > bytes || (v == bytes && k < best) {
+			best, bytes = k, v
+		}
+	}
+	if bytes < 500<<20 {
+		return "stack-or-other", bytes >> 20
+	}
+	return best, bytes >> 20
 }
